@@ -1,6 +1,8 @@
 mod file_metadata;
 mod privilege_context;
 mod safe_file_creator;
+#[cfg(xet_verif)]
+pub mod verif_hooks;
 
 pub use privilege_context::{create_dir_all, create_file, PrivilgedExecutionContext};
 pub use safe_file_creator::SafeFileCreator;
